@@ -317,6 +317,28 @@ def _defaulted_before(v: FuncView, name: str, ifnode) -> bool:
     return False
 
 
+def check_record_creation_guarded(ctx, res: Result, cls: str, skip=("add_edge", "set_edge_list", "populate_from_dict", "__init__")):
+    """Outside add_edge as well: a store `_edge_list[k] = id` must be dominated by `k not in _edge_list`
+    (re-keying a record onto an existing key silently overwrites that record)."""
+    for name, fi in ctx.methods(cls).items():
+        if name in skip:
+            continue
+        v = ctx.view(fi)
+        stores = _writes(v, "_edge_list", ("store",))
+        tests = _membership_tests(v, "_edge_list") if stores else []
+        for st in stores:
+            sid = _cfgid(v, st.at)
+            ok = False
+            for ifn, keyexpr, positive, atom in tests:
+                if not _same_expr(keyexpr, st.key):
+                    continue
+                is_in = isinstance(atom.ops[0], ast.In)
+                lab = _implied_branch(ifn.test, atom, not is_in)
+                if lab and v.cfg.branch_dominated(v.cfg.by_ast[id(ifn.test)], lab, sid):
+                    ok = True
+            res.check(ok, "P-FRESH", fi.short, norm(st.node), "_edge_list", "an edge record is (re-)keyed without a dominating `key not in _edge_list` test: an existing record under that key is overwritten instead of merged", _where(v, st.node))
+
+
 # ----------------------------------------------------------------------------- remove_edge
 def check_remove_edge(ctx, res: Result, cls: str):
     v = ctx.view(f"{cls}.remove_edge")
@@ -428,11 +450,6 @@ def check_remove_node(ctx, res: Result, cls: str):
     # incident records go through remove_edge / remove_edges (never by hand-editing one table)
     calls = [n for n in walk_no_nested(v.fi.node) if isinstance(n, ast.Call) and isinstance(n.func, ast.Attribute) and is_self_attr(n.func) and n.func.attr in ("remove_edge", "remove_edges")]
     res.check(bool(calls), "P-NODE", f, "self.remove_edge(...)", "incident", "remove_node never removes the incident hyperedges through remove_edge", _where(v, v.fi.node))
-    direct = [o for o in v.ops() if o.table in ("_edge_list",) + T.EDGE_ID_TABLES and o.is_write]
-    for o in direct:
-        res.violation("P-NODE", f, norm(o.node), o.table + ":direct", "remove_node edits an edge table directly instead of going through add_edge / remove_edge (joint update is bypassed)", _where(v, o.node))
-    if not direct:
-        res.ok("P-NODE", f, "no direct edge-table writes", "direct", _where(v, v.fi.node))
     # P-SHRINK: id-keyed reads of the record must not follow its removal within the same loop iteration
     readers = []
     for n in walk_no_nested(v.fi.node):
